@@ -1532,7 +1532,12 @@ func (s *Store) processLTXStreamFrame(ctx context.Context, frame *LTXStreamFrame
 
 	// Skip frame if it already occurred on this node. This can happen if the
 	// replica node created the transaction and forwarded it to the primary.
-	if hdr.NodeID == s.ID() {
+	//
+	// If the primary applied a forwarded transaction but its acknowledgement
+	// never arrived then the transaction was not committed locally even though
+	// it originated here. It must be applied like any other transaction,
+	// otherwise this node can never get past it.
+	if hdr.NodeID == s.ID() && db.Pos().TXID >= hdr.MaxTXID {
 		dec := ltx.NewDecoder(src)
 		if err := dec.Verify(); err != nil {
 			return fmt.Errorf("verify duplicate ltx file: %w", err)
